@@ -5,6 +5,7 @@
   specification (Spec/KV.lean), connected by the abstraction `abs` (Proofs/Causal.lean).
 -/
 import OllamaVerif.Proofs.Causal
+import OllamaVerif.Proofs.CausalDefrag
 
 namespace OllamaVerif.C06
 open OllamaVerif OllamaVerif.KV OllamaVerif.Causal
@@ -1083,6 +1084,161 @@ theorem encoder_cached_exact (ops : List EOp) :
   have h := this ops {} {} ⟨rfl, rfl, rfl, by intro p hp; simp at hp⟩
   exact ⟨h.2.2.1, h.2.2.2⟩
 
+/-! ### defragmentation (repaired coalescing) commutes with the abstraction -/
+
+/-- **Defragmentation does not change the abstract state** (repaired coalescing, `fixDefrag`): the
+    entries — owners, position, and the data found at the entry's location — before and after `defrag`
+    are the same up to order, for every cache.  (False for the pinned coalescing: `F14_defrag_swaps_rows`.) -/
+theorem defrag_abs_perm (c : Cache) (hlen : c.cells.length = c.rows.length)
+    (hfix : c.v.fixDefrag = true) (hl : c.hasLayers = true) : (abs (defrag c)).Perm (abs c) := by
+  have h := (defragCore_perm c.cells c.rows hlen).2.2
+  unfold defrag abs
+  simp only [hfix, hl, if_true]
+  exact h
+
+theorem slide_v (c : Cache) (b : List Tok) : (slide c b).v = c.v ∧ (slide c b).hasLayers = c.hasLayers := by
+  unfold slide
+  cases c.window with
+  | none => exact ⟨rfl, rfl⟩
+  | some w =>
+    simp only
+    generalize batchSeqs b = seqs
+    induction seqs generalizing c with
+    | nil => exact ⟨rfl, rfl⟩
+    | cons seq rest ih =>
+      simp only [List.foldl_cons]
+      cases lowest b seq with
+      | none => exact ih c
+      | some low =>
+        have := ih (slideSeq c w seq low)
+        have e : (slideSeq c w seq low).v = c.v ∧ (slideSeq c w seq low).hasLayers = c.hasLayers := by
+          unfold slideSeq; cases c.ranges seq <;> exact ⟨rfl, rfl⟩
+        exact ⟨this.1.trans e.1, this.2.trans e.2⟩
+
+/-- the abstract state placement starts from is the abstract state after window eviction, also when
+    the pass had to defragment -/
+theorem placeBase_abs_perm (c : Cache) (b : List Tok) (h : Inv c) (hfix : c.v.fixDefrag = true)
+    (hl : c.hasLayers = true) :
+    (abs (placeBase c b)).Perm (abs (slide { c with curBatch := b, except := [] } b)) := by
+  have h1 : Inv (slide { c with curBatch := b, except := [] } b) := slide_inv _ b ⟨h.len, h.cover, h.rmax, h.pad, h.size⟩
+  unfold placeBase
+  split
+  · exact List.Perm.refl _
+  · have hv := slide_v { c with curBatch := b, except := [] } b
+    exact defrag_abs_perm _ h1.len (by rw [hv.1]; exact hfix) (by rw [hv.2]; exact hl)
+
+theorem startForward_window (c : Cache) (b : List Tok) : (startForward c b).1.window = c.window := by
+  have hs := slide_window { c with curBatch := b, except := [] } b
+  unfold startForward
+  simp only
+  split
+  · simp only [finishForward]
+    rw [place_window]; exact hs
+  · split
+    · exact hs
+    · split
+      · simp only [finishForward]
+        rw [place_window]; exact hs
+      · exact hs
+
+/-- **End-to-end, one forward pass, every accepting path** (direct fit or defragment-and-retry; repaired
+    coalescing).  What each batch token is shown (position, data identity, shift — as a multiset) is
+    exactly what the location-free spec says about the state *before* the pass with the batch stored
+    on top.  Neither the window eviction nor the defragmentation of the pass is visible.  With
+    `copyPrefix_abs`, `remove_abs`, `setCausal_abs` and `inv_run` this is the refinement to the spec for
+    every history.  `hasLayers`: some `Put` has happened (before the first `Put` there is no data to
+    move and the model leaves the rows alone). -/
+theorem forward_exposes_stored_history_defrag (c : Cache) (b : List Tok) (ids : List Nat) (h : Inv c)
+    (hids : ids.length = b.length) (hfix : c.v.fixDefrag = true) (hl : c.hasLayers = true)
+    (hok : (startForward c b).2 = .ok) (t : Tok) (ht : t ∈ b) :
+    ((exposedEntries (put (startForward c b).1 ids) t).map key).Perm
+      ((visible c.window (KV.store (abs c) (b.zip ids)) t.seq t.pos).map key) := by
+  have hw : (put (startForward c b).1 ids).window = c.window := startForward_window c b
+  rw [mask_exact c b ids h hok t ht, hw]
+  have hperm := (startForward_put_abs_perm c b ids h hids hok).trans
+    (List.Perm.append_right _ (placeBase_abs_perm c b h hfix hl))
+  have h1 := (hperm.filter (vis c.window t.seq t.pos)).map key
+  refine h1.trans ?_
+  have hs : abs (slide { c with curBatch := b, except := [] } b) = match c.window with
+      | none => abs c
+      | some w => specSlide (abs c) w b :=
+    slide_abs { c with curBatch := b, except := [] } b ⟨h.len, h.cover, h.rmax, h.pad, h.size⟩
+  simp only [visible, KV.store, List.filter_append, List.map_append]
+  apply List.Perm.append_right
+  rw [hs]
+  cases c.window with
+  | none => exact List.Perm.refl _
+  | some w =>
+    simp only
+    have := specSlide_invisible (abs c) w b t ht
+    simp only [visible] at this
+    rw [this]
+
+theorem place_v (c : Cache) (idx : Nat) (toks : List Tok) : (place c idx toks).v = c.v := by
+  induction toks generalizing c idx with
+  | nil => rfl
+  | cons t ts ih => simp [place, ih, placeTok]
+
+theorem startForward_v (c : Cache) (b : List Tok) : (startForward c b).1.v = c.v := by
+  have hs := (slide_v { c with curBatch := b, except := [] } b).1
+  unfold startForward
+  simp only
+  split
+  · simp only [finishForward]
+    rw [place_v]; exact hs
+  · split
+    · exact hs
+    · split
+      · simp only [finishForward]
+        rw [place_v]; exact hs
+      · exact hs
+
+theorem stepH_v (c : Cache) (op : HOp) : (stepH c op).v = c.v := by
+  cases op with
+  | fwd b ids =>
+    simp only [stepH]
+    split
+    · exact startForward_v c b
+    · exact startForward_v c b
+  | cp src dst len => rfl
+  | rm seq b e =>
+    simp only [stepH, Causal.remove]
+    split
+    · rfl
+    · split
+      · rfl
+      · split
+        · rfl
+        · split <;> rfl
+  | sc ex =>
+    simp only [stepH, setCausal]
+    split <;> rfl
+
+theorem run_v (c : Cache) (ops : List HOp) : (ops.foldl stepH c).v = c.v := by
+  induction ops generalizing c with
+  | nil => rfl
+  | cons op rest ih => simp only [List.foldl_cons]; rw [ih, stepH_v]
+
+/-- **Refinement for every history** (tree with the repaired coalescing): start from any initial
+    configuration, run any history of forward passes (accepted or rejected), prefix copies, removals
+    (accepted, refused, unsupported) and SetCausal calls; then any batch that `StartForward` accepts —
+    by direct fit or after defragmenting — is shown exactly the entries the location-free spec derives
+    from the abstract state before the pass.  (`hasLayers`: the history contains an accepted pass.) -/
+theorem forward_exposes_all_histories (v : Variant) (hv : v.fixDefrag = true) (w : Option Int)
+    (maxSeq capacity maxBatch cachePad batchPad : Nat) (hs : Bool) (ops : List HOp) (b : List Tok) (ids : List Nat)
+    (hsz : (Causal.init v w maxSeq capacity maxBatch cachePad batchPad hs).cells.length ≤ maxInt)
+    (hids : ids.length = b.length) :
+    let c := ops.foldl stepH (Causal.init v w maxSeq capacity maxBatch cachePad batchPad hs)
+    c.hasLayers = true → (startForward c b).2 = .ok →
+    ∀ t ∈ b, ((exposedEntries (put (startForward c b).1 ids) t).map key).Perm
+      ((visible c.window (KV.store (abs c) (b.zip ids)) t.seq t.pos).map key) := by
+  intro c hl hok t ht
+  have hinv := inv_run _ ops (inv_init v w maxSeq capacity maxBatch cachePad batchPad hs hsz)
+  have hcv : c.v.fixDefrag = true := by
+    have : c.v = v := (run_v _ ops).trans rfl
+    rw [this]; exact hv
+  exact forward_exposes_stored_history_defrag c b ids hinv hids hcv hl hok t ht
+
 /-! ### Witnesses of the defects the model shares with the code -/
 
 def fwd (c : Cache) (b : List (Tok × Nat)) : Cache :=
@@ -1165,5 +1321,19 @@ example :
 /-- non-vacuity of `mask_exact`: a concrete non-trivial state satisfies its hypotheses -/
 example : (startForward (f14 {}) [⟨0, 5⟩]).2 = .full ∧
     (startForward (Causal.remove (f14 {}) 0 3 maxInt32).1 [⟨0, 3⟩]).2 = .ok := by decide
+
+/-- non-vacuity of `defrag_abs_perm` / `forward_exposes_stored_history_defrag`: in the F14 state (5 cells,
+    positions 0,1 and 3,4 removed ⇒ holes around the one live cell) the 3-token batch is only accepted
+    after defragmenting, the cache has layers, the variant carries the repaired coalescing, and defrag
+    really moved a cell -/
+def f14pre (v : Variant) : Cache :=
+  let c1 := fwd (Causal.init v none 1 5 5 1 1 true) [(⟨0, 0⟩, 1), (⟨0, 1⟩, 2), (⟨0, 2⟩, 3), (⟨0, 3⟩, 4), (⟨0, 4⟩, 5)]
+  (Causal.remove (Causal.remove c1 0 0 2).1 0 2 maxInt32).1
+
+example :
+    (f14pre { fixDefrag := true }).hasLayers = true ∧ (f14pre { fixDefrag := true }).v.fixDefrag = true ∧
+    findStart (f14pre { fixDefrag := true }).cells 3 = none ∧
+    (startForward (f14pre { fixDefrag := true }) [⟨0, 1⟩, ⟨0, 2⟩, ⟨0, 3⟩]).2 = .ok ∧
+    (defrag (f14pre { fixDefrag := true })).cells ≠ (f14pre { fixDefrag := true }).cells := by decide
 
 end OllamaVerif.C06
